@@ -141,11 +141,12 @@ def intField (fs : Fields) (num : Nat) : Int :=
   | some (_, .one (.sc (.int i))) => i
   | _ => 0
 
-/-! ## Well-formedness: what `Range` guarantees — each field / map key is visited once. -/
+/-! ## Well-formedness: what `Range` guarantees — each field / map key is visited once — and the unknown
+fields of every message are records cut from raw bytes by the model of `protowire.ConsumeField`. -/
 mutual
   def Val.WF : Val → Prop
     | .sc _ => True
-    | .msg _ _ fs _ => fs.keys.Nodup ∧ Fields.WF fs
+    | .msg _ _ fs u => fs.keys.Nodup ∧ Fields.WF fs ∧ WireCut u
   def FVal.WF : FVal → Prop
     | .one v => Val.WF v
     | .list vs => Vals.WF vs
